@@ -2,5 +2,5 @@ CONSTANTS NodeId = 5  NT = 2  NR = 1  Walk = FALSE  WalkLen = 0  PoolN = 16  Cfg
 CONSTANT Objs <- MCObjs  ObjOrder <- MCOrder  V0 <- MCV0  TC0 <- TC12  RC0 <- RC12  Sync0 <- S12  Letters <- L12  ProbeLetters <- P12  Probe2Letters <- PNone
 INIT Init
 NEXT Next
-VIEW View
+VIEW ViewM
 INVARIANT InvPdo
